@@ -187,7 +187,7 @@ def run(res, tier, seed, search):
     res.rule = ("random histories over {prepare, query(k), update fresh / replace / both, pickle, compress_index} on dense float and "
                 "bit-packed indexes x tree_init x low_memory; after every op: life-cycle model comparison + C01/C02 predicates against the "
                 "logical dataset; non-trivial = an update after a prepare/query/pickle; distinct = hash of (data, config, ops)")
-    nh, length, nm = (5, 6, 3) if tier == "quick" else (30, 12, len(METRICS))
+    nh, length, nm = (7, 6, 3) if tier == "quick" else (30, 12, len(METRICS))
     if search:
         nh *= 3
     start = (seed * nm) % len(METRICS)
